@@ -138,6 +138,15 @@ def run(spec, tier, seed, t0):
     if not (x1 and x2):
         raise C.CheckError("in-Coq evaluation disagrees with the extracted checker: %s %s" % (d1, d2))
 
+    # monitor verdicts whose clause code is a recorded known finding of this property (read-only list)
+    known = {f["code"]: f for f in C.load_known().get("findings", []) if f.get("property") == P and "code" in f}
+    known_hits = {}
+    for i, v in enumerate(v_mon):
+        if v is not None and len(v) >= 3 and v[1] == 906 and v[2] in known:
+            known_hits.setdefault(v[2], []).append(i)
+            v_mon[i] = None
+    for code, idxs in known_hits.items():
+        print("KNOWN-FINDING: property=%s %s (seen in %d of %d cases this run)" % (P, known[code]["what"], len(idxs), len(lines)))
     mon_fail = [i for i, v in enumerate(v_mon) if v is not None]
     cor_fail = [i for i, v in enumerate(v_model) if v is not None]
     violations = 0
@@ -186,6 +195,7 @@ def run(spec, tier, seed, t0):
         evaluations=len(lines), distinct_nontrivial=nontrivial, rule=spec.rule,
         traces_validated_against_impl=len(lines), correspondence_mismatches=len(cor_fail), monitor_failures=len(mon_fail),
         in_coq_crosscheck="%s; %s" % (d1, d2), generator=stats, corpus_cases=len(corpus),
+        known_finding_hits={str(k): len(v) for k, v in known_hits.items()},
         samples=samples, exhaustive=False)
     C.write_evidence(P, tier, seed, coverage, spec.assumptions, time.time() - t0, violations)
     for f in (cases_path, stats_path):
